@@ -137,3 +137,12 @@ def _ksaver_run(self):
 
 
 KSaver = _mk('KSaver', __name__, fields=('kind', 'n'), extra={'run': _ksaver_run})
+
+
+def _empty_run(self):
+    WORLD.rec('start', (type(self).__module__, type(self).__qualname__, self.cache_key))
+    return ('R', 'Empty', WORLD.epoch)
+
+
+Empty = labtech.task(type('Empty', (), {'__annotations__': {}, 'run': _empty_run, '__module__': __name__, '__qualname__': 'Empty'}))
+HoldsEmpty = _mk('HoldsEmpty', __name__)      # a task holding a parameterless task
